@@ -18,6 +18,10 @@
      bool(x) for a Documentable x          True (Documentable defines neither __bool__ nor __len__)
      self.mro()                            the chain self, base, base of base, ... of resolved base objects (single
                                            inheritance, as everywhere in Model/Names.v; C3 is C05's subject)
+     d.get(k, default) on a dict           d[k] if k in d else default  (default is a side-effect free expression here)
+     a local bound to self.contents / x._localNameToFullName_map is the same dict (nothing mutates it in these bodies)
+     next((e2 for y in (e1 for x in L) if c), default)   the for loop over L with an early return (the stages are
+                                           side-effect free and pulled one element at a time)
      method calls x._localNameToFullName(p), x.find(p) on another object: parameters [call_l2f], [call_find] of the
        interpreter, instantiated in the theorems with the model functions -- each callee has its own obligation
        (Inheritable._localNameToFullName, i.e. Function objects, is pinned by the translator, not translated). *)
@@ -63,7 +67,9 @@ Inductive iexpr :=
 | EInAmap (o p : iexpr)                    (* p in o._localNameToFullName_map *)
 | EAmapIdx (o p : iexpr)                   (* o._localNameToFullName_map[p] *)
 | EDot (a b : iexpr)                       (* f'{a}.{b}' *)
-| EJoin (l : iexpr).                       (* '.'.join(l) *)
+| EJoin (l : iexpr)                        (* '.'.join(l) *)
+| ECond (c a b : iexpr)                    (* a if c else b ; also the normal form of d.get(k, default) *)
+| EPair (a b : iexpr).                     (* the tuple (a, b), as returned by a helper *)
 
 Inductive istmt :=
 | SSkip
@@ -73,7 +79,10 @@ Inductive istmt :=
 | SFor (i : option var) (x : var) (e : iexpr) (body : istmt)   (* for x in e / for i, x in enumerate(e) *)
 | SWhile (e : iexpr) (body : istmt)
 | SBreak | SContinue
-| SReturn (e : iexpr).
+| SReturn (e : iexpr)
+| SCall (targets : list var) (callee : istmt) (args : list iexpr).
+    (* t1[, t2] = helper(args) : a module-level helper function of model.py, translated like the methods; its
+       parameters are its locals 0, 1, ... ; a tuple result is unpacked into the targets *)
 
 Definition env := var -> option ival.
 Definition env0 : env := fun _ => None.
@@ -239,6 +248,33 @@ Section Interp.
       | Some (VList vs) => match join_dots vs with Some q => Some (VStr q) | None => None end
       | _ => None
       end
+    | ECond c a b => match eval en c with Some v => if truthy v then eval en a else eval en b | None => None end
+    | EPair a b => match eval en a, eval en b with Some x, Some y => Some (VList [x; y]) | _, _ => None end
+    end.
+
+  Fixpoint eval_list (en : env) (es : list iexpr) : option (list ival) :=
+    match es with
+    | [] => Some []
+    | e :: es' => match eval en e, eval_list en es' with Some v, Some vs => Some (v :: vs) | _, _ => None end
+    end.
+
+  Fixpoint bind_params (k : nat) (vs : list ival) (en : env) : env :=
+    match vs with [] => en | v :: vs' => bind_params (S k) vs' (setv en k v) end.
+
+  Fixpoint assign_all (en : env) (ts : list var) (vs : list ival) : option env :=
+    match ts, vs with
+    | [], [] => Some en
+    | t :: ts', v :: vs' => assign_all (setv en t v) ts' vs'
+    | _, _ => None
+    end.
+
+  Definition assign_targets (en : env) (ts : list var) (v : ival) : res :=
+    match ts with
+    | [t] => RNormal (setv en t v)
+    | _ => match v with
+           | VList vs => match assign_all en ts vs with Some en' => RNormal en' | None => RError end
+           | _ => RError
+           end
     end.
 
   (* for [i,] x in <list>: ... ; the list is evaluated once *)
@@ -291,6 +327,17 @@ Section Interp.
     | SBreak => RBreak en
     | SContinue => RContinue en
     | SReturn e => match eval en e with Some v => RReturn v | None => RError end
+    | SCall ts callee args =>
+      match eval_list en args with
+      | Some vs =>
+        match exec callee fuel (bind_params O vs env0) with
+        | RReturn v => assign_targets en ts v
+        | RNormal _ => assign_targets en ts VNone
+        | ROutOfFuel => ROutOfFuel
+        | _ => RError
+        end
+      | None => RError
+      end
     end.
 
   (* a function body: falling off the end returns None *)
